@@ -166,6 +166,28 @@ fn crafted_inference_programs() -> Vec<String> {
     ] {
         v.push(prog.to_string());
     }
+    // array sizes written as const expressions with exactly one ill-typed operand (an unknown name, a
+    // const of another type, a literal with another suffix): every operand has to be a usize
+    for (bad, decl) in [("M", ""), ("B", "const B: u8 = 1u8;\n"), ("T", "const T: bool = true;\n"), ("I", "const I: i64 = 1i64;\n"), ("1u8", ""), ("true", "")] {
+        for size in [
+            format!("N + {bad}"),
+            format!("{bad} + N"),
+            format!("N - {bad}"),
+            format!("{bad} - N"),
+            format!("N + 1usize - {bad}"),
+            format!("{bad} + 1usize + N"),
+            format!("max(N + {bad}, N)"),
+            format!("min(N, {bad} - N)"),
+            format!("N + N + {bad}"),
+        ] {
+            let defs = format!("const N: usize = 2usize;\n{decl}");
+            v.push(format!("{defs}pub fn main(s: [u8; const {{ {size} }}]) -> u8 {{ 0u8 }}\n"));
+            v.push(format!("{defs}struct P {{ f: [bool; const {{ {size} }}] }}\npub fn main(x: u8) -> u8 {{ x }}\n"));
+            v.push(format!("{defs}pub fn main(x: u8) -> [u8; const {{ {size} }}] {{ [x; 2] }}\n"));
+            v.push(format!("{defs}pub fn main(x: u8) -> u8 {{ let a: [u8; const {{ {size} }}] = [x; 2]; x }}\n"));
+            v.push(format!("{defs}enum Q {{ A([u8; const {{ {size} }}]), B }}\npub fn main(x: u8) -> u8 {{ x }}\n"));
+        }
+    }
     // range patterns that leave out part of the type, in the positions that demand an irrefutable
     // pattern: every number type x bounds at and next to MIN, -1, 0, 1 and MAX x with and without
     // suffix (only the full range MIN..=MAX is irrefutable)
